@@ -531,6 +531,14 @@ func (cs *connState) ClearTag(t tag) {
 	close(ch)
 }
 
+// tagChan returns the channel that is closed when the given tag finishes, or
+// nil if the tag is not in flight.
+func (cs *connState) tagChan(t tag) chan struct{} {
+	cs.tagMu.Lock()
+	defer cs.tagMu.Unlock()
+	return cs.tags[t]
+}
+
 // Waittag waits for a tag to finish.
 func (cs *connState) WaitTag(t tag) {
 	cs.tagMu.Lock()
@@ -587,6 +595,23 @@ func (cs *connState) handleRequest() bool {
 		return false
 	}
 
+	// Register the tag and, for a flush, look up the request it names while
+	// the right to receive is still held: both are questions about the order
+	// of the frames on the wire. A flush waits for a request received before
+	// it; what else has been received by the time its handler runs does not
+	// count. (Two flushes naming each other's tags would otherwise wait for
+	// each other forever, and a request received just before its flush could
+	// be found not yet registered.)
+	var started bool
+	var flushWait chan struct{}
+	if err == nil {
+		if flush, ok := m.(*tflush); ok {
+			// nil for an idle tag, which includes the flush's own.
+			flushWait = cs.tagChan(flush.OldTag)
+		}
+		started = cs.StartTag(tag)
+	}
+
 	// Ensure that another goroutine is available to receive from cs.t.
 	if atomic.LoadInt32(&cs.recvIdle) == 0 {
 		cs.pendingWg.Add(1)
@@ -610,8 +635,8 @@ func (cs *connState) handleRequest() bool {
 		return true
 	}
 
-	// Try to start the tag.
-	if !cs.StartTag(tag) {
+	// Was the tag started?
+	if !started {
 		cs.server.log.Printf("no valid tag [%05d]", tag)
 		// Nothing we can do at this point; client is bogus.
 		return true
@@ -619,9 +644,12 @@ func (cs *connState) handleRequest() bool {
 
 	// Handle the message.
 	var r message
-	if flush, ok := m.(*tflush); ok && flush.OldTag == tag {
-		// The request to be flushed is this very request: there is nothing
-		// to wait for, and waiting on our own tag would never end.
+	if _, ok := m.(*tflush); ok {
+		// Wait for the request that was in flight under the old tag when the
+		// flush arrived, if there was one.
+		if flushWait != nil {
+			<-flushWait
+		}
 		r = &rflush{}
 	} else {
 		r = cs.handle(m)
